@@ -237,8 +237,41 @@ def needs_schema_def(schema):
     )
 
 
-def print_sdl(schema, ext_dirs=False):
-    """ext_dirs: type-level directives are moved into directive-only `extend` pieces"""
+MEMBERS_KEY = {"OBJECT": "fields", "INTERFACE": "fields", "INPUT": "fields", "ENUM": "values", "UNION": "members"}
+
+
+def split_type(t, k):
+    """(base, extension) of a type definition: the first k fields/values/members stay in the definition, the rest
+    arrive through an `extend` block (same order, so the extended type equals the unsplit one)"""
+    key = MEMBERS_KEY[t["kind"]]
+    base, ext = dict(t), {"kind": t["kind"]}
+    if key == "fields":
+        items = list(t["fields"].items())
+        base["fields"], ext["fields"] = dict(items[:k]), dict(items[k:])
+        if t["kind"] == "OBJECT":
+            ext["interfaces"] = []
+    else:
+        base[key], ext[key] = list(t[key][:k]), list(t[key][k:])
+        if key == "values" and t.get("value_dirs"):
+            ext["value_dirs"] = t["value_dirs"]
+    return base, ext
+
+
+def print_sdl(schema, ext_dirs=False, split=None):
+    """ext_dirs: type-level directives are moved into directive-only `extend` pieces;
+    split: {type name: k} - see split_type"""
+    if split:
+        schema = dict(schema)
+        types, tail = {}, []
+        for n, t in schema["types"].items():
+            k = split.get(n)
+            if k and t["kind"] in MEMBERS_KEY and 0 < k < len(t[MEMBERS_KEY[t["kind"]]]):
+                types[n], ext = split_type(t, k)
+                tail.append(print_type_def(n, ext, extend=True))
+            else:
+                types[n] = t
+        schema["types"] = types
+        return print_sdl(schema, ext_dirs) + "\n" + "\n\n".join(tail) + "\n"
     parts = []
     for n, d in (schema.get("directives") or {}).items():
         parts.append(print_directive_def(n, d))
